@@ -19,8 +19,11 @@ Local Open Scope Z_scope.
 (* ------------------------------------------------------------------ one block *)
 Record block_obs := {
   ob_result : Z;                         (* 0 = committed, 1 = FinalizeBlock returned an error, 2 = panic *)
-  ob_pds : list pd;                      (* verified heights after the block *)
+  ob_pds : list pd;                      (* verified heights after the block of the records that existed before it
+                                            and were not pruned by it *)
   ob_mint : option (Z * Z * Z);          (* minted fee / bond coins and minter.Data when the epoch fired *)
+  ob_mint_skip : bool;                   (* coins were burnt in BeginBlock before the epoch hook (slashing):
+                                            the supplies the mint function read are not the dumped ones *)
   ob_alloc : option (list Z);            (* received by the fee account of each gauge pool (None: not
                                             comparable, AMM transactions in the block) *)
   ob_da : option (list (Z * Z));         (* (uri, status) after the block (None: DA transactions in the block) *)
@@ -48,11 +51,12 @@ Definition block_corr (b : block_in) (o : block_obs) : bool :=
   match run_block true b with
   | Ok m =>
       (ob_result o =? 0) &&
-      zzlist_eqb (map (fun x => (pd_uri x, pd_verified_height x)) (o_pds m))
-                 (map (fun x => (pd_uri x, pd_verified_height x)) (ob_pds o)) &&
+      forallb (fun x => existsb (fun y => (pd_uri y =? pd_uri x) && (pd_verified_height y =? pd_verified_height x)) (o_pds m))
+              (ob_pds o) &&
       match o_mint m, ob_mint o with
       | None, None => true
-      | Some mo, Some (f, bd, l) => (mo_fee_minted mo =? f) && (mo_bond_minted mo =? bd) && (mo_last mo =? l)
+      | Some mo, Some (f, bd, l) =>
+          (mo_last mo =? l) && (ob_mint_skip o || ((mo_fee_minted mo =? f) && (mo_bond_minted mo =? bd)))
       | _, _ => false
       end &&
       opt_cmp (ob_alloc o) (fun l => zlist_eqb (fst (o_alloc m)) l) &&
@@ -80,7 +84,7 @@ Record watch_obs := {
   wo_pos_ok : bool;         (* ... with code 0 *)
   wo_tick : Z               (* pool's current tick afterwards (when ok) *)
 }.
-Definition CAP : nat := 30000.
+Definition CAP : nat := 1500.
 
 (* the repaired code: pool parameters validated, no-progress guard in the search.
    [validated] / [guard] select the code under test (both true = HEAD with the C01 patches). *)
